@@ -29,7 +29,7 @@ Lemma mk_data_inv cfg ins d : mk_data V cfg ins = OK d ->
     d_leadsI d = common_indices (map i_leads (all_inputs cfg ins)) (c_leads cfg) /\
     d_locsI d = common_indices (map (fun i => map l_id (i_locs i)) (all_inputs cfg ins)) (Some use) /\
     d_has_clim d = (match c_clim cfg with Some _ => true | None => false end) /\
-    d_obs_range d = c_obs_range cfg /\ d_clim_divide d = c_clim_divide cfg.
+    d_obs_range d = c_obs_range cfg /\ d_clim_divide d = c_clim_divide cfg /\ d_times d <> [].
 Proof.
   unfold mk_data. destruct ins as [|first rest]; [discriminate|].
   destruct (use_locations V cfg first) as [use|e] eqn:Huse; [|discriminate].
@@ -73,6 +73,7 @@ Proof.
   destruct (is_nil (index_list (common_values tkeys (c_times cfg)) (i_times first))) eqn:EtI; [discriminate|].
   destruct (is_nil (index_list (common_values lkeys (c_leads cfg)) (i_leads first))) eqn:ElI; [discriminate|].
   destruct (is_nil sidx) eqn:EsI; [discriminate|].
+  match goal with |- (if is_nil ?tt then _ else _) = _ -> _ => destruct (is_nil tt) eqn:EtF; [discriminate|] end.
   intros H. injection H as <-. cbn [d_inputs d_times d_leads d_locs d_timesI d_leadsI d_locsI d_has_clim d_obs_range d_clim_divide].
   exists first, rest, use. rewrite Et, El, Es.
   repeat split; try reflexivity.
@@ -80,7 +81,12 @@ Proof.
   - rewrite <- Et. destruct (index_list (common_values tkeys (c_times cfg)) (i_times first)); discriminate.
   - rewrite <- El. destruct (index_list (common_values lkeys (c_leads cfg)) (i_leads first)); discriminate.
   - destruct sidx; discriminate.
+  - rewrite Et in EtF. intro K. rewrite K in EtF. discriminate.
 Qed.
+
+(* a dataset that is built verifies at least one time: a selection that leaves none stops with "No valid times selected" *)
+Lemma built_dataset_has_times cfg ins d : mk_data V cfg ins = OK d -> d_times d <> [].
+Proof. intros H. destruct (mk_data_inv cfg ins d H) as (first & rest & use & _ & _ & _ & _ & _ & _ & _ & _ & _ & _ & _ & _ & _ & _ & _ & Hne). exact Hne. Qed.
 
 (* (a) membership: exactly the times present in every input (and the climatology) that satisfy -t, -d, -tod *)
 Theorem times_spec cfg ins d t : mk_data V cfg ins = OK d ->
